@@ -29,14 +29,30 @@ fn touch<T>(_t: T) {}
 MARKER_PRELUDE = """#![allow(unused)]
 use caches::*;
 use caches::lru::*;
-struct NoSync(std::cell::Cell<u8>);
-impl std::hash::Hash for NoSync { fn hash<H: std::hash::Hasher>(&self, _h: &mut H) {} }
-impl PartialEq for NoSync { fn eq(&self, _: &Self) -> bool { true } }
-impl Eq for NoSync {}
-struct NoSend(std::rc::Rc<u8>);
-impl std::hash::Hash for NoSend { fn hash<H: std::hash::Hasher>(&self, _h: &mut H) {} }
-impl PartialEq for NoSend { fn eq(&self, _: &Self) -> bool { true } }
-impl Eq for NoSend {}
+use std::hash::{BuildHasher, Hash, Hasher};
+use std::borrow::Borrow;
+// exactly one marker missing each, so that a bound demanding the WRONG marker is seen:
+//   LacksSend: Sync but not Send (a MutexGuard);  LacksSync: Send but not Sync (a Cell)
+// each can stand for a key, a value, an eviction callback, a BuildHasher or a KeyHasher
+struct LacksSend(std::sync::MutexGuard<'static, u8>);
+struct LacksSync(std::cell::Cell<u8>);
+macro_rules! everything {
+    ($t:ty) => {
+        impl Hash for $t { fn hash<H: Hasher>(&self, _h: &mut H) {} }
+        impl PartialEq for $t { fn eq(&self, _: &Self) -> bool { true } }
+        impl Eq for $t {}
+        impl BuildHasher for $t {
+            type Hasher = std::collections::hash_map::DefaultHasher;
+            fn build_hasher(&self) -> Self::Hasher { std::collections::hash_map::DefaultHasher::new() }
+        }
+        impl OnEvictCallback for $t { fn on_evict<K, V>(&self, _: &K, _: &V) {} }
+        impl<K: Hash + Eq> caches::lfu::KeyHasher<K> for $t {
+            fn hash_key<Q>(&self, _key: &Q) -> u64 where K: Borrow<Q>, Q: Hash + Eq + ?Sized { 0 }
+        }
+    };
+}
+everything!(LacksSend);
+everything!(LacksSync);
 fn is_send<T: Send>() {}
 fn is_sync<T: Sync>() {}
 """
@@ -76,32 +92,51 @@ def method_probes(i, m):
     return out
 
 
-def type_expr(ty, k, v, e=None):
-    if ty == "RawLRU":
-        return "RawLRU<%s, %s, %s>" % (k, v, e or "DefaultEvictCallback")
-    if ty in ("SegmentedCache", "TwoQueueCache", "AdaptiveCache", "WTinyLFUCache"):
-        return "%s<%s, %s>" % (ty, k, v)
-    return "%s<'static, %s, %s>" % (ty, k, v)
+def default_arg(pname):
+    if pname in ("K", "V"):
+        return "u8"
+    if pname == "E":
+        return "DefaultEvictCallback"
+    if pname == "KH":
+        return "caches::lfu::DefaultKeyHasher<u8>"
+    return "DefaultHashBuilder"
+
+
+def type_expr(row, subst):
+    """the type of the row with every generic parameter instantiated (defaults, except those in `subst`)"""
+    args = []
+    for pname, kind in row["params"]:
+        if kind == "lifetime":
+            args.append("'static")
+        else:
+            args.append(subst.get(pname, default_arg(pname)))
+    return "%s<%s>" % (row["ty"], ", ".join(args))
+
+
+def role_of(pname):
+    return {"K": "key", "V": "val"}.get(pname, "other")
 
 
 def marker_probes(i, row, req):
-    """req: {param: 'send'|'sync'} as computed by the Lean `required`"""
+    """req: {role: 'send'|'sync'} as computed by the Lean `required`; one probe pair per generic parameter of the type"""
     fn = "is_send" if row["marker"] == "Send" else "is_sync"
     out = []
 
-    def prog(k="u8", v="u8", e=None):
-        return MARKER_PRELUDE + "fn main() { %s::<%s>(); }\n" % (fn, type_expr(row["ty"], k, v, e))
-    out.append(("i%d_ok" % i, "control", False, prog()))
-    for param, slot in (("key", "k"), ("val", "v"), ("other", "e")):
-        if param not in req:
+    def prog(subst):
+        return MARKER_PRELUDE + "fn main() { %s::<%s>(); }\n" % (fn, type_expr(row, subst))
+    out.append(("i%d_ok" % i, "control", False, prog({})))
+    for pname, kind in row["params"]:
+        if kind != "type":
             continue
-        if slot == "e" and row["ty"] != "RawLRU":
+        r = req.get(role_of(pname))
+        if r is None:
             continue
-        r = req[param]
-        kw_bad = {slot: "NoSync" if r == "sync" else "NoSend"}
-        out.append(("i%d_%s_bad" % (i, param), "%s lacks %s" % (param, r), True, prog(**kw_bad)))
+        lacking = "LacksSend" if r == "send" else "LacksSync"
+        other = "LacksSync" if r == "send" else "LacksSend"
+        out.append(("i%d_%s_bad" % (i, pname), "%s lacks exactly %s" % (pname, r.capitalize()), True, prog({pname: lacking})))
         if r == "send":
-            out.append(("i%d_%s_sendonly" % (i, param), "%s is Send but not Sync (allowed)" % param, False, prog(**{slot: "NoSync"})))
+            # the other marker is not required: a type lacking only Sync must be accepted
+            out.append(("i%d_%s_sendonly" % (i, pname), "%s is Send but not Sync (allowed)" % pname, False, prog({pname: other})))
     return out
 
 
